@@ -455,12 +455,13 @@ func (c *Context) rootSpecials(d, x *Decimal, factor int32) (bool, Condition, er
 		return true, res, err
 	}
 	if x.Form == Infinite {
-		if x.Negative {
+		if x.Negative && factor%2 == 0 {
 			d.Set(decimalNaN)
 			res, err := c.goError(InvalidOperation)
 			return true, res, err
 		}
-		d.Set(decimalInfinity)
+		// An odd root of -Infinity is -Infinity.
+		d.Set(x)
 		return true, 0, nil
 	}
 
